@@ -66,6 +66,8 @@ def check(chk, fx):
     primrules.prims(chk, fx, "BUFIT", "UTIL")
     from .. import gramrules
     gramrules.check(chk, fx)          # how a pattern is read decides what each regex term matches
+    from . import c17
+    c17.rej4(chk, fx)                 # ... and with which options (a blank in a pattern is a blank)
     from .. import deporder, goldenreg as _gr
     deporder.group(chk, fx, "DEPORD", "dependence order of statements (lexer construction and matching)", _gr.DEP_GROUPS["LEX"])
     from .. import width
